@@ -88,7 +88,7 @@ theorem getActive_good (s : State) : Good s (getActive s) := by
   · exact good_err404 s
   · exact good_ok _ _ _
 
-theorem putActive_good (W : World) (s : State) (r : Request) : Good s (putActive W s r) := by
+theorem putActive_good (q : Quirks) (W : World) (s : State) (r : Request) : Good s (putActive q W s r) := by
   unfold putActive
   split
   · split
@@ -155,7 +155,7 @@ theorem step_good (W : World) (s : State) (r : Request) : Good s (step Quirks.sp
     · exact patchModel_good W s r
     · exact good_err405 s
   · split
-    · exact putActive_good W s r
+    · exact putActive_good _ W s r
     · exact getActive_good s
     · exact good_err405 s
   · split
@@ -196,43 +196,171 @@ theorem step_get (q : Quirks) (W : World) (s : State) (r : Request) (h : r.metho
 
 /-! ## attribute lists -/
 
+/-- the names of an attribute list, in order -/
+def names (as : Attrs) : List String := as.map (·.name)
+
+@[simp] theorem present_spec (as : Attrs) (n : String) : present Quirks.spec as n = hasName as n := by
+  simp [present, Quirks.spec]
+
+theorem hasName_iff {as : Attrs} {n : String} : hasName as n = true ↔ n ∈ names as := by
+  simp [hasName, names]
+
+theorem hasName_false_iff {as : Attrs} {n : String} : hasName as n = false ↔ n ∉ names as := by
+  rw [← hasName_iff]; simp
+
 theorem valueOf_some_mem {as : Attrs} {n : String} {v : Tok} (h : valueOf as n = some v) :
-    ∃ a ∈ as, a.name = n := by
+    (⟨n, v⟩ : Attr) ∈ as := by
   induction as with
   | nil => simp [valueOf] at h
   | cons a rest ih =>
     simp only [valueOf] at h
     split at h
-    · exact ⟨a, by simp, by assumption⟩
-    · obtain ⟨b, hb, hn⟩ := ih h
-      exact ⟨b, by simp [hb], hn⟩
+    · rename_i hn
+      cases h
+      cases a
+      simp only at hn
+      subst hn
+      simp
+    · exact List.mem_cons_of_mem _ (ih h)
+
+theorem valueOf_none_iff {as : Attrs} {n : String} : valueOf as n = none ↔ n ∉ names as := by
+  induction as with
+  | nil => simp [valueOf, names]
+  | cons a rest ih =>
+    simp only [valueOf, names, List.map_cons, List.mem_cons, not_or]
+    split
+    · rename_i hn; simp [hn]
+    · rename_i hn
+      rw [ih]
+      simp only [names]
+      constructor
+      · intro h; exact ⟨fun e => hn e.symm, h⟩
+      · intro h; exact h.2
+
+/-- in a list without repeated names `Value(name)` is THE entry of that name -/
+theorem valueOf_eq_some_iff {as : Attrs} {n : String} {v : Tok} (hnd : (names as).Nodup) :
+    valueOf as n = some v ↔ (⟨n, v⟩ : Attr) ∈ as := by
+  constructor
+  · exact valueOf_some_mem
+  · intro hm
+    induction as with
+    | nil => simp at hm
+    | cons a rest ih =>
+      simp only [names, List.map_cons, List.nodup_cons] at hnd
+      simp only [valueOf]
+      rcases List.mem_cons.mp hm with e | hm'
+      · subst e; simp
+      · have hne : a.name ≠ n := by
+          intro e
+          apply hnd.1
+          rw [e]
+          exact List.mem_map.mpr ⟨_, hm', rfl⟩
+        simp only [hne, ↓reduceIte]
+        exact ih hnd.2 hm'
 
 theorem has_mem {as : Attrs} {n : String} (h : has as n = true) : ∃ a ∈ as, a.name = n := by
   unfold has at h
   split at h
-  · exact valueOf_some_mem (by assumption)
+  · exact ⟨_, valueOf_some_mem (by assumption), rfl⟩
   · simp at h
 
-/-- after `ReplaceAttribute(n, v)` some entry is exactly `(n, v)` -/
-theorem mem_replaceAttr (as : Attrs) (n : String) (v : Tok) : (⟨n, v⟩ : Attr) ∈ replaceAttr as n v := by
-  unfold replaceAttr
-  split
-  · rename_i h
-    obtain ⟨a, ha, hn⟩ := has_mem h
-    unfold replaceAll
-    rw [List.mem_map]
-    exact ⟨a, ha, by simp [hn]⟩
-  · simp
+@[simp] theorem names_replaceAll (as : Attrs) (n : String) (v : Tok) : names (replaceAll as n v) = names as := by
+  simp only [names, replaceAll, List.map_map]
+  apply List.map_congr_left
+  intro a _
+  simp only [Function.comp]
+  split <;> rfl
 
-/-- `ReplaceAttribute` leaves entries of other names alone -/
-theorem mem_replaceAttr_of_ne {as : Attrs} {a : Attr} (n : String) (v : Tok) (ha : a ∈ as) (hn : a.name ≠ n) :
-    a ∈ replaceAttr as n v := by
+theorem valueOf_replaceAll_same {as : Attrs} {n : String} (v : Tok) (h : n ∈ names as) :
+    valueOf (replaceAll as n v) n = some v := by
+  induction as with
+  | nil => simp [names] at h
+  | cons a rest ih =>
+    simp only [replaceAll, List.map_cons, valueOf]
+    by_cases hn : a.name = n
+    · simp [hn]
+    · simp only [hn, ↓reduceIte]
+      simp only [names, List.map_cons, List.mem_cons] at h
+      rcases h with e | h
+      · exact absurd e.symm hn
+      · exact ih h
+
+theorem valueOf_replaceAll_other (as : Attrs) {n n' : String} (v : Tok) (hne : n' ≠ n) :
+    valueOf (replaceAll as n v) n' = valueOf as n' := by
+  induction as with
+  | nil => rfl
+  | cons a rest ih =>
+    simp only [replaceAll, List.map_cons, valueOf] at ih ⊢
+    by_cases hn : a.name = n
+    · have : a.name ≠ n' := by rw [hn]; exact fun e => hne e.symm
+      simp [hn, hne.symm, ih]
+    · simp only [hn, ↓reduceIte]
+      split
+      · rfl
+      · exact ih
+
+theorem valueOf_append_single_same {as : Attrs} {n : String} (v : Tok) (h : n ∉ names as) :
+    valueOf (as ++ [⟨n, v⟩]) n = some v := by
+  induction as with
+  | nil => simp [valueOf]
+  | cons a rest ih =>
+    simp only [names, List.map_cons, List.mem_cons, not_or] at h
+    simp only [List.cons_append, valueOf]
+    have : a.name ≠ n := fun e => h.1 e.symm
+    simp only [this, ↓reduceIte]
+    exact ih h.2
+
+theorem valueOf_append_single_other (as : Attrs) {n n' : String} (v : Tok) (hne : n' ≠ n) :
+    valueOf (as ++ [⟨n, v⟩]) n' = valueOf as n' := by
+  induction as with
+  | nil => simp [valueOf, hne.symm]
+  | cons a rest ih =>
+    simp only [List.cons_append, valueOf]
+    split
+    · rfl
+    · exact ih
+
+/-- `ReplaceAttribute(n, v)` in the demanded behaviour: afterwards `Value(n) = v` … -/
+theorem valueOf_replaceAttr_same (as : Attrs) (n : String) (v : Tok) :
+    valueOf (replaceAttr Quirks.spec as n v) n = some v := by
+  unfold replaceAttr
+  rw [present_spec]
+  split
+  · rename_i h; exact valueOf_replaceAll_same v (hasName_iff.mp h)
+  · rename_i h
+    exact valueOf_append_single_same v (hasName_false_iff.mp (by simpa using h))
+
+/-- … the values of all other names are untouched … -/
+theorem valueOf_replaceAttr_other (as : Attrs) {n n' : String} (v : Tok) (hne : n' ≠ n) :
+    valueOf (replaceAttr Quirks.spec as n v) n' = valueOf as n' := by
   unfold replaceAttr
   split
-  · unfold replaceAll
-    rw [List.mem_map]
-    exact ⟨a, ha, by simp [hn]⟩
-  · simp [ha]
+  · exact valueOf_replaceAll_other as v hne
+  · exact valueOf_append_single_other as v hne
+
+/-- … and no name is listed twice if none was. -/
+theorem nodup_replaceAttr {as : Attrs} (n : String) (v : Tok) (h : (names as).Nodup) :
+    (names (replaceAttr Quirks.spec as n v)).Nodup := by
+  unfold replaceAttr
+  rw [present_spec]
+  split
+  · rw [names_replaceAll]; exact h
+  · rename_i hn
+    have hn' : n ∉ names as := hasName_false_iff.mp (by simpa using hn)
+    simp only [names, List.map_append, List.map_cons, List.map_nil]
+    rw [List.nodup_append]
+    refine ⟨h, by simp, ?_⟩
+    intro a ha b hb
+    simp only [List.mem_singleton] at hb
+    subst hb
+    exact fun e => hn' (e ▸ ha)
+
+theorem names_replaceAttr_mem {as : Attrs} {n n' : String} (v : Tok) (h : n' ∈ names as) :
+    n' ∈ names (replaceAttr Quirks.spec as n v) := by
+  unfold replaceAttr
+  split
+  · rw [names_replaceAll]; exact h
+  · simp only [names, List.map_append, List.mem_append]; exact Or.inl h
 
 theorem lastIndexOf_spec (as : Attrs) (n : String) (i : Nat) (acc : Option Nat) (k : Nat)
     (h : lastIndexOf as n i acc = some k) :
@@ -251,91 +379,215 @@ theorem lastIndexOf_spec (as : Attrs) (n : String) (i : Nat) (acc : Option Nat) 
     · right
       exact ⟨j + 1, by simp; omega, by omega, by simpa using hn⟩
 
-/-- `RemoveAttribute` leaves entries of other names alone -/
-theorem mem_removeAttr_of_ne {as : Attrs} {a : Attr} (n : String) (ha : a ∈ as) (hn : a.name ≠ n) :
-    a ∈ removeAttr as n := by
+theorem lastIndexOf_isSome (as : Attrs) (n : String) (i : Nat) (acc : Option Nat)
+    (h : acc.isSome = true ∨ n ∈ names as) : (lastIndexOf as n i acc).isSome = true := by
+  induction as generalizing i acc with
+  | nil =>
+    simp only [lastIndexOf]
+    rcases h with h | h
+    · exact h
+    · simp [names] at h
+  | cons a rest ih =>
+    simp only [lastIndexOf]
+    apply ih
+    by_cases hn : a.name = n
+    · left; simp [hn]
+    · simp only [hn, ↓reduceIte]
+      rcases h with h | h
+      · exact Or.inl h
+      · right
+        simp only [names, List.map_cons, List.mem_cons] at h
+        rcases h with e | h
+        · exact absurd e.symm hn
+        · exact h
+
+theorem valueOf_eraseIdx_other (as : Attrs) (j : Nat) (hj : j < as.length) {n' : String}
+    (hne : as[j].name ≠ n') : valueOf (as.eraseIdx j) n' = valueOf as n' := by
+  induction as generalizing j with
+  | nil => simp at hj
+  | cons a rest ih =>
+    cases j with
+    | zero =>
+      simp only [List.getElem_cons_zero] at hne
+      simp [List.eraseIdx, valueOf, hne]
+    | succ j =>
+      simp only [List.eraseIdx, valueOf]
+      split
+      · rfl
+      · exact ih j (by simpa using hj) (by simpa using hne)
+
+/-- `RemoveAttribute(n)` in the demanded behaviour, on a list without repeated names: the name is gone, the values of
+all other names are untouched, no name is listed twice -/
+theorem removeAttr_spec {as : Attrs} (n : String) (hnd : (names as).Nodup) :
+    valueOf (removeAttr Quirks.spec as n) n = none ∧
+    (∀ n', n' ≠ n → valueOf (removeAttr Quirks.spec as n) n' = valueOf as n') ∧
+    (names (removeAttr Quirks.spec as n)).Nodup := by
   unfold removeAttr
+  rw [present_spec]
   split
-  · split
+  · rename_i hp
+    have hsome := lastIndexOf_isSome as n 0 none (Or.inr (hasName_iff.mp hp))
+    split
     · rename_i i hi
       rcases lastIndexOf_spec as n 0 none i hi with h | ⟨j, hj, hk, hname⟩
       · simp at h
-      · rw [List.mem_eraseIdx_iff_getElem]
-        obtain ⟨p, hp, hpa⟩ := List.getElem_of_mem ha
-        refine ⟨p, hp, ?_, hpa⟩
-        intro hpi
-        have : i = j := by omega
-        subst this
-        subst hpi
-        rw [hpa] at hname
-        exact hn hname
-    · exact ha
-  · exact ha
+      · have hij : i = j := by omega
+        subst hij
+        refine ⟨?_, ?_, ?_⟩
+        · rw [valueOf_none_iff]
+          intro hmem
+          obtain ⟨a, ha, han⟩ := List.mem_map.mp hmem
+          rw [List.mem_eraseIdx_iff_getElem] at ha
+          obtain ⟨p, hp', hpi, hpa⟩ := ha
+          apply hpi
+          have h1 : (names as)[p]'(by simpa [names] using hp') = (names as)[i]'(by simpa [names] using hj) := by
+            simp only [names, List.getElem_map]
+            rw [hpa, han, hname]
+          exact (List.getElem_inj hnd).mp h1
+        · intro n' hne
+          exact valueOf_eraseIdx_other as i hj (by rw [hname]; exact fun e => hne e.symm)
+        · exact List.Nodup.sublist (List.Sublist.map _ (List.eraseIdx_sublist as i)) hnd
+    · rename_i hnone
+      rw [hnone] at hsome
+      simp at hsome
+  · rename_i hp
+    refine ⟨?_, fun _ _ => rfl, hnd⟩
+    rw [valueOf_none_iff]
+    exact hasName_false_iff.mp (by simpa using hp)
 
-/-- what `deriveExtraModelAttributes` guarantees about the model's attributes -/
+/-- `Join` in the demanded behaviour keeps names unrepeated and keeps every name that was there -/
+theorem join_spec {as : Attrs} (inc : Attrs) (hnd : (names as).Nodup) :
+    (names (join Quirks.spec as inc)).Nodup ∧ ∀ n, n ∈ names as → n ∈ names (join Quirks.spec as inc) := by
+  have hj : join Quirks.spec as inc = inc.foldl (fun acc e => replaceAttr Quirks.spec acc e.name e.val) as := by
+    simp [join, Quirks.spec]
+  rw [hj]
+  clear hj
+  induction inc generalizing as with
+  | nil => exact ⟨hnd, fun _ h => h⟩
+  | cons e es ih =>
+    simp only [List.foldl_cons]
+    obtain ⟨h1, h2⟩ := ih (nodup_replaceAttr e.name e.val hnd)
+    exact ⟨h1, fun n hn => h2 n (names_replaceAttr_mem e.val hn)⟩
+
+/-- the attribute names `deriveExtraModelAttributes` manages, given whether a solution table is loaded: `Encoding`,
+`ValidAgainstScenario`, `ValidationErrors` always, `ParetoFrontMember` while a table is loaded (before that an entry of
+that name is an ordinary posted attribute) -/
+def managed (tbl : Option SolTable) (n : String) : Bool :=
+  n == "Encoding" || n == "ValidAgainstScenario" || n == "ValidationErrors" || (tbl.isSome && n == "ParetoFrontMember")
+
+/-- what `deriveExtraModelAttributes` guarantees about the model's attributes in the demanded behaviour: no name is
+listed twice, and the managed names carry exactly what the model's own action set (and the loaded table) says:
+ONE `Encoding` entry, ONE `ValidAgainstScenario` entry, ONE `ParetoFrontMember` entry when a table is loaded, and a
+`ValidationErrors` entry exactly when the set is invalid -/
 def Shows (W : World) (tbl : Option SolTable) (m : Mdl) : Prop :=
-  (⟨"Encoding", strTok (encodeStr m.active)⟩ : Attr) ∈ m.attrs ∧
-  (⟨"ValidAgainstScenario", boolTok (W.valid m.u.key m.active)⟩ : Attr) ∈ m.attrs ∧
-  (∀ t, tbl = some t → (⟨"ParetoFrontMember", boolTok (paretoHas t (encodeStr m.active))⟩ : Attr) ∈ m.attrs) ∧
-  (W.valid m.u.key m.active = false → (⟨"ValidationErrors", veTok⟩ : Attr) ∈ m.attrs)
+  (names m.attrs).Nodup ∧
+  valueOf m.attrs "Encoding" = some (strTok (encodeStr m.active)) ∧
+  valueOf m.attrs "ValidAgainstScenario" = some (boolTok (W.valid m.u.key m.active)) ∧
+  (∀ t, tbl = some t → valueOf m.attrs "ParetoFrontMember" = some (boolTok (paretoHas t (encodeStr m.active)))) ∧
+  valueOf m.attrs "ValidationErrors" = (if W.valid m.u.key m.active then none else some veTok)
 
-theorem derive_active (W : World) (tbl : Option SolTable) (m : Mdl) : (derive W tbl m).active = m.active := by
+/-- the managed part of the attribute list is a function of the action set, the scenario and the table -/
+def managedValue (W : World) (tbl : Option SolTable) (m : Mdl) (n : String) : Option Tok :=
+  if n = "Encoding" then some (strTok (encodeStr m.active))
+  else if n = "ValidAgainstScenario" then some (boolTok (W.valid m.u.key m.active))
+  else if n = "ValidationErrors" then (if W.valid m.u.key m.active then none else some veTok)
+  else match tbl with
+    | some t => some (boolTok (paretoHas t (encodeStr m.active)))
+    | none => none
+
+theorem shows_managed {W : World} {tbl : Option SolTable} {m : Mdl} (h : Shows W tbl m) {n : String}
+    (hm : managed tbl n = true) : valueOf m.attrs n = managedValue W tbl m n := by
+  obtain ⟨_, he, hv, hp, hve⟩ := h
+  unfold managedValue
+  by_cases h1 : n = "Encoding"
+  · subst h1; simpa using he
+  by_cases h2 : n = "ValidAgainstScenario"
+  · subst h2; simpa using hv
+  by_cases h3 : n = "ValidationErrors"
+  · subst h3; simpa using hve
+  simp only [h1, h2, h3, ↓reduceIte]
+  have hm' : tbl.isSome = true ∧ n = "ParetoFrontMember" := by
+    simpa [managed, h1, h2, h3] using hm
+  obtain ⟨ht, hn⟩ := hm'
+  subst hn
+  cases tbl with
+  | none => simp at ht
+  | some t => exact hp t rfl
+
+theorem derive_active (q : Quirks) (W : World) (tbl : Option SolTable) (m : Mdl) : (derive q W tbl m).active = m.active := by
   unfold derive; rfl
 
-theorem derive_u (W : World) (tbl : Option SolTable) (m : Mdl) : (derive W tbl m).u = m.u := by
+theorem derive_u (q : Quirks) (W : World) (tbl : Option SolTable) (m : Mdl) : (derive q W tbl m).u = m.u := by
   unfold derive; rfl
 
-theorem derive_id (W : World) (tbl : Option SolTable) (m : Mdl) : (derive W tbl m).id = m.id := by
+theorem derive_id (q : Quirks) (W : World) (tbl : Option SolTable) (m : Mdl) : (derive q W tbl m).id = m.id := by
   unfold derive; rfl
 
-theorem derive_shows (W : World) (tbl : Option SolTable) (m : Mdl) : Shows W tbl (derive W tbl m) := by
+theorem derive_shows (W : World) (tbl : Option SolTable) (m : Mdl) (hnd : (names m.attrs).Nodup) :
+    Shows W tbl (derive Quirks.spec W tbl m) := by
   have hne1 : "Encoding" ≠ "ParetoFrontMember" := by decide
   have hne2 : "Encoding" ≠ "ValidAgainstScenario" := by decide
   have hne3 : "Encoding" ≠ "ValidationErrors" := by decide
   have hne4 : "ParetoFrontMember" ≠ "ValidAgainstScenario" := by decide
   have hne5 : "ParetoFrontMember" ≠ "ValidationErrors" := by decide
   have hne6 : "ValidAgainstScenario" ≠ "ValidationErrors" := by decide
-  -- stage 1
-  have h1 := mem_replaceAttr m.attrs "Encoding" (strTok (encodeStr m.active))
-  cases tbl with
-  | none =>
-    refine ⟨?_, ?_, ?_, ?_⟩
-    · simp only [derive]
-      split
-      · exact mem_removeAttr_of_ne _ (mem_replaceAttr_of_ne _ _ h1 hne2) hne3
-      · exact mem_replaceAttr_of_ne _ _ (mem_replaceAttr_of_ne _ _ h1 hne2) hne3
-    · simp only [derive]
-      split
-      · exact mem_removeAttr_of_ne _ (mem_replaceAttr _ _ _) hne6
-      · exact mem_replaceAttr_of_ne _ _ (mem_replaceAttr _ _ _) hne6
-    · intro t ht; cases ht
-    · intro hv
-      simp only [derive] at hv ⊢
-      simp only [hv]
-      exact mem_replaceAttr _ _ _
-  | some t =>
-    have h2 := mem_replaceAttr (replaceAttr m.attrs "Encoding" (strTok (encodeStr m.active))) "ParetoFrontMember"
-      (boolTok (paretoHas t (encodeStr m.active)))
-    have h1' := mem_replaceAttr_of_ne "ParetoFrontMember" (boolTok (paretoHas t (encodeStr m.active))) h1 hne1
-    refine ⟨?_, ?_, ?_, ?_⟩
-    · simp only [derive]
-      split
-      · exact mem_removeAttr_of_ne _ (mem_replaceAttr_of_ne _ _ h1' hne2) hne3
-      · exact mem_replaceAttr_of_ne _ _ (mem_replaceAttr_of_ne _ _ h1' hne2) hne3
-    · simp only [derive]
-      split
-      · exact mem_removeAttr_of_ne _ (mem_replaceAttr _ _ _) hne6
-      · exact mem_replaceAttr_of_ne _ _ (mem_replaceAttr _ _ _) hne6
-    · intro t' ht'
-      cases ht'
-      simp only [derive]
-      split
-      · exact mem_removeAttr_of_ne _ (mem_replaceAttr_of_ne _ _ h2 hne4) hne5
-      · exact mem_replaceAttr_of_ne _ _ (mem_replaceAttr_of_ne _ _ h2 hne4) hne5
-    · intro hv
-      simp only [derive] at hv ⊢
-      simp only [hv]
-      exact mem_replaceAttr _ _ _
+  -- the four stages
+  let e := encodeStr m.active
+  let a1 := replaceAttr Quirks.spec m.attrs "Encoding" (strTok e)
+  let a2 := match tbl with
+    | none => a1
+    | some t => replaceAttr Quirks.spec a1 "ParetoFrontMember" (boolTok (paretoHas t e))
+  let v := W.valid m.u.key m.active
+  let a3 := replaceAttr Quirks.spec a2 "ValidAgainstScenario" (boolTok v)
+  let a4 := if v then removeAttr Quirks.spec a3 "ValidationErrors" else replaceAttr Quirks.spec a3 "ValidationErrors" veTok
+  have hd : derive Quirks.spec W tbl m = { m with attrs := a4 } := rfl
+  have n1 : (names a1).Nodup := nodup_replaceAttr _ _ hnd
+  have e1 : valueOf a1 "Encoding" = some (strTok e) := valueOf_replaceAttr_same _ _ _
+  have n2 : (names a2).Nodup := by
+    cases tbl with
+    | none => exact n1
+    | some t => exact nodup_replaceAttr _ _ n1
+  have e2 : valueOf a2 "Encoding" = some (strTok e) := by
+    cases tbl with
+    | none => exact e1
+    | some t => exact (valueOf_replaceAttr_other a1 _ hne1).trans e1
+  have p2 : ∀ t, tbl = some t → valueOf a2 "ParetoFrontMember" = some (boolTok (paretoHas t e)) := by
+    intro t ht
+    subst ht
+    exact valueOf_replaceAttr_same _ _ _
+  have n3 : (names a3).Nodup := nodup_replaceAttr _ _ n2
+  have e3 : valueOf a3 "Encoding" = some (strTok e) := (valueOf_replaceAttr_other a2 _ hne2).trans e2
+  have p3 : ∀ t, tbl = some t → valueOf a3 "ParetoFrontMember" = some (boolTok (paretoHas t e)) :=
+    fun t ht => (valueOf_replaceAttr_other a2 _ hne4).trans (p2 t ht)
+  have v3 : valueOf a3 "ValidAgainstScenario" = some (boolTok v) := valueOf_replaceAttr_same _ _ _
+  rw [hd]
+  show (names a4).Nodup ∧ valueOf a4 "Encoding" = some (strTok e) ∧ valueOf a4 "ValidAgainstScenario" = some (boolTok v) ∧
+    (∀ t, tbl = some t → valueOf a4 "ParetoFrontMember" = some (boolTok (paretoHas t e))) ∧
+    valueOf a4 "ValidationErrors" = (if v then none else some veTok)
+  rcases Bool.eq_false_or_eq_true v with hv | hv
+  · obtain ⟨r1, r2, r3⟩ := removeAttr_spec "ValidationErrors" n3
+    have ha4 : a4 = removeAttr Quirks.spec a3 "ValidationErrors" := by simp only [a4, hv, ↓reduceIte]
+    rw [ha4]
+    refine ⟨r3, (r2 _ hne3).trans e3, (r2 _ hne6).trans v3, fun t ht => (r2 _ hne5).trans (p3 t ht), ?_⟩
+    simp only [hv, ↓reduceIte]; exact r1
+  · have ha4 : a4 = replaceAttr Quirks.spec a3 "ValidationErrors" veTok := by simp [a4, hv]
+    rw [ha4]
+    refine ⟨nodup_replaceAttr _ _ n3, (valueOf_replaceAttr_other a3 _ hne3).trans e3,
+      (valueOf_replaceAttr_other a3 _ hne6).trans v3, fun t ht => (valueOf_replaceAttr_other a3 _ hne5).trans (p3 t ht), ?_⟩
+    simp only [hv, Bool.false_eq_true, ↓reduceIte]
+    exact valueOf_replaceAttr_same _ _ _
+
+/-- the membership form of `Shows` (what the earlier, weaker statement said) -/
+theorem shows_mem {W : World} {tbl : Option SolTable} {m : Mdl} (h : Shows W tbl m) :
+    (⟨"Encoding", strTok (encodeStr m.active)⟩ : Attr) ∈ m.attrs ∧
+    (⟨"ValidAgainstScenario", boolTok (W.valid m.u.key m.active)⟩ : Attr) ∈ m.attrs ∧
+    (∀ t, tbl = some t → (⟨"ParetoFrontMember", boolTok (paretoHas t (encodeStr m.active))⟩ : Attr) ∈ m.attrs) ∧
+    (W.valid m.u.key m.active = false → (⟨"ValidationErrors", veTok⟩ : Attr) ∈ m.attrs) := by
+  obtain ⟨_, he, hv, hp, hve⟩ := h
+  refine ⟨valueOf_some_mem he, valueOf_some_mem hv, fun t ht => valueOf_some_mem (hp t ht), ?_⟩
+  intro hf
+  rw [hf] at hve
+  exact valueOf_some_mem (by simpa using hve)
 
 
 /-! ## lengths of action sets -/
@@ -417,25 +669,34 @@ structure Inv (W : World) (s : State) : Prop where
 theorem inv_init (W : World) : Inv W State.init := by
   constructor <;> simp [State.init]
 
+/-- `derive` keeps names unrepeated (whatever the action set) -/
+theorem derive_nodup (W : World) (tbl : Option SolTable) (m : Mdl) (hnd : (names m.attrs).Nodup) :
+    (names (derive Quirks.spec W tbl m).attrs).Nodup := (derive_shows W tbl m hnd).1
+
 /-- folding `derive` over a non-empty list of sets ends in a derived model whose set is the last one -/
 theorem foldl_derive (W : World) (tbl : Option SolTable) (sets : List ActiveSet) (m : Mdl) (last : ActiveSet)
-    (h : sets.getLast? = some last) :
-    let m' := sets.foldl (fun acc set => derive W tbl { acc with active := set }) m
+    (hnd : (names m.attrs).Nodup) (h : sets.getLast? = some last) :
+    let m' := sets.foldl (fun acc set => derive Quirks.spec W tbl { acc with active := set }) m
     Shows W tbl m' ∧ m'.active = last ∧ m'.u = m.u ∧ m'.id = m.id := by
   obtain ⟨ys, rfl⟩ := List.getLast?_eq_some_iff.mp h
   clear h
   simp only [List.foldl_append, List.foldl_cons, List.foldl_nil]
-  refine ⟨derive_shows _ _ _, by simp [derive_active], ?_, ?_⟩
-  · rw [derive_u]
-    simp only
-    induction ys generalizing m with
-    | nil => rfl
-    | cons y ys ih => simp only [List.foldl_cons]; rw [ih]; rw [derive_u]
-  · rw [derive_id]
-    simp only
-    induction ys generalizing m with
-    | nil => rfl
-    | cons y ys ih => simp only [List.foldl_cons]; rw [ih]; rw [derive_id]
+  have hfold : ∀ (ys : List ActiveSet) (m : Mdl), (names m.attrs).Nodup →
+      (names (ys.foldl (fun acc set => derive Quirks.spec W tbl { acc with active := set }) m).attrs).Nodup ∧
+      (ys.foldl (fun acc set => derive Quirks.spec W tbl { acc with active := set }) m).u = m.u ∧
+      (ys.foldl (fun acc set => derive Quirks.spec W tbl { acc with active := set }) m).id = m.id := by
+    intro ys
+    induction ys with
+    | nil => intro m h; exact ⟨h, rfl, rfl⟩
+    | cons y ys ih =>
+      intro m h
+      simp only [List.foldl_cons]
+      obtain ⟨h1, h2, h3⟩ := ih (derive Quirks.spec W tbl { m with active := y }) (derive_nodup W tbl _ h)
+      exact ⟨h1, by rw [h2, derive_u], by rw [h3, derive_id]⟩
+  obtain ⟨h1, h2, h3⟩ := hfold ys m hnd
+  refine ⟨derive_shows _ _ _ h1, by simp [derive_active], ?_, ?_⟩
+  · rw [derive_u]; exact h2
+  · rw [derive_id]; exact h3
 
 
 /-- installing a derived model as both live model and snapshot keeps the invariant (table unchanged) -/
@@ -470,7 +731,7 @@ theorem inv_postScenario (W : World) (s : State) (r : Request) (h : Inv W s) :
       · intro m hm
         simp only [Option.some.injEq] at hm
         subst hm
-        refine ⟨derive_shows _ _ _, ?_⟩
+        refine ⟨derive_shows _ _ _ (by simp [names]), ?_⟩
         simp [freshModel, derive_active, derive_u, allInactive]
     · simp only [Quirks.spec, Bool.false_eq_true, ↓reduceIte]; exact h
     · exact h
@@ -488,6 +749,7 @@ theorem inv_postSolutions (W : World) (s : State) (r : Request) (h : Inv W s) :
         · rename_i t _
           simp only [Quirks.spec, Bool.false_eq_true, ↓reduceIte]
           have hm := (h.shows m hlive).2
+          have hnd := (h.shows m hlive).1.1
           constructor
           · rfl
           · simpa [hlive] using h.text_iff
@@ -497,7 +759,7 @@ theorem inv_postSolutions (W : World) (s : State) (r : Request) (h : Inv W s) :
           · intro m' hm'
             simp only [Option.some.injEq] at hm'
             subst hm'
-            exact ⟨derive_shows _ _ _, by simp [derive_active, derive_u, hm]⟩
+            exact ⟨derive_shows _ _ _ hnd, by simp [derive_active, derive_u, hm]⟩
         · exact h
       · exact h
 
@@ -507,25 +769,28 @@ theorem inv_patchModel (W : World) (s : State) (r : Request) (h : Inv W s) :
   split
   · rename_i sn m hsnap hlive
     have hm := (h.shows m hlive).2
+    have hnd := (h.shows m hlive).1.1
     have hl : s.live.isSome = true := by simp [hlive]
     split
     · exact h
     · split
       · rename_i entries _
         simp only [Quirks.spec, Bool.false_eq_true, ↓reduceIte]
+        have hjn := (join_spec (List.map (fun (e : PatchEntry) => ({ name := e.name, val := e.val } : Attr)) entries) hnd).1
         split
         · exact h
         · rename_i sets hsets
           split
-          · exact inv_install h hl _ (derive_shows _ _ _) (by simp [derive_active, derive_u, hm])
+          · exact inv_install h hl _ (derive_shows _ _ _ hjn) (by simp [derive_active, derive_u, hm])
           · rename_i hne
             cases hlast : sets.getLast? with
             | none => simp [List.getLast?_eq_none_iff] at hlast; simp [hlast] at hne
             | some last =>
               have hf := foldl_derive W s.table sets
-                { m with attrs := join m.attrs (List.map (fun (e : PatchEntry) => ({ name := e.name, val := e.val } : Attr)) entries) } last hlast
+                { m with attrs := join Quirks.spec m.attrs (List.map (fun (e : PatchEntry) => ({ name := e.name, val := e.val } : Attr)) entries) } last hjn hlast
               obtain ⟨hshow, hact, hu, _⟩ := hf
               refine inv_install h hl _ hshow ?_
+              simp only [Quirks.spec] at hact hu
               rw [hact, hu]
               have := decodeEntries_lengths hsets last (List.mem_of_getLast? hlast)
               simpa using this
@@ -533,17 +798,18 @@ theorem inv_patchModel (W : World) (s : State) (r : Request) (h : Inv W s) :
   · exact h
 
 theorem inv_putActive (W : World) (s : State) (r : Request) (h : Inv W s) :
-    Inv W (putActive W s r).2 := by
+    Inv W (putActive Quirks.spec W s r).2 := by
   unfold putActive
   split
   · rename_i sn m hsnap hlive
     have hm := (h.shows m hlive).2
+    have hnd := (h.shows m hlive).1.1
     have hl : s.live.isSome = true := by simp [hlive]
     split
     · exact h
     · split
       · split
-        · exact inv_install h hl _ (derive_shows _ _ _)
+        · exact inv_install h hl _ (derive_shows _ _ _ hnd)
             (by simp [derive_active, derive_u, applyTable_length _ _ _ _ hm])
         · exact h
       · exact h
@@ -555,6 +821,7 @@ theorem inv_putSub (W : World) (s : State) (r : Request) (id : String) (h : Inv 
   split
   · rename_i sn m hsnap hlive
     have hm := (h.shows m hlive).2
+    have hnd := (h.shows m hlive).1.1
     have hl : s.live.isSome = true := by simp [hlive]
     split
     · exact h
@@ -566,7 +833,7 @@ theorem inv_putSub (W : World) (s : State) (r : Request) (id : String) (h : Inv 
           · split
             · exact h
             · simp only [Quirks.spec, Bool.false_eq_true, ↓reduceIte]
-              exact inv_install h hl _ (derive_shows _ _ _)
+              exact inv_install h hl _ (derive_shows _ _ _ hnd)
                 (by simp [derive_active, derive_u, applySub_length _ _ _ _ hm])
         · exact h
   · exact h
@@ -614,6 +881,178 @@ theorem inv_exec (W : World) (s : State) (rs : List Request) (h : Inv W s) : Inv
     simpa [exec, run] using this
 
 
+/-! ## the model representation is a function of scenario, id, action set, table and the posted attributes -/
+
+theorem nodup_of_names_nodup {as : Attrs} (h : (names as).Nodup) : as.Nodup := by
+  induction as with
+  | nil => exact List.nodup_nil
+  | cons a rest ih =>
+    simp only [names, List.map_cons, List.nodup_cons] at h
+    rw [List.nodup_cons]
+    exact ⟨fun hm => h.1 (List.mem_map.mpr ⟨a, hm, rfl⟩), ih h.2⟩
+
+/-- two models "are the same representation": same scenario, id and action set, and the same attribute entries (the
+JSON document lists them in some order; the order is the order of arrival and carries no information) -/
+def SameRepr (m₁ m₂ : Mdl) : Prop :=
+  m₁.u = m₂.u ∧ m₁.id = m₂.id ∧ m₁.active = m₂.active ∧ m₁.attrs.Perm m₂.attrs
+
+theorem sameRepr_of_shows {W : World} {tbl : Option SolTable} {m₁ m₂ : Mdl}
+    (s₁ : Shows W tbl m₁) (s₂ : Shows W tbl m₂)
+    (hu : m₁.u = m₂.u) (hid : m₁.id = m₂.id) (hact : m₁.active = m₂.active)
+    (huser : (m₁.attrs.filter (fun a => !managed tbl a.name)).Perm (m₂.attrs.filter (fun a => !managed tbl a.name))) :
+    SameRepr m₁ m₂ := by
+  refine ⟨hu, hid, hact, ?_⟩
+  rw [List.perm_ext_iff_of_nodup (nodup_of_names_nodup s₁.1) (nodup_of_names_nodup s₂.1)]
+  intro a
+  rcases Bool.eq_false_or_eq_true (managed tbl a.name) with hm | hm
+  · have e₁ := shows_managed s₁ hm
+    have e₂ := shows_managed s₂ hm
+    have hmv : managedValue W tbl m₁ a.name = managedValue W tbl m₂ a.name := by
+      simp only [managedValue, hu, hact]
+    have ha : a = ⟨a.name, a.val⟩ := rfl
+    rw [ha, ← valueOf_eq_some_iff s₁.1, ← valueOf_eq_some_iff s₂.1, e₁, e₂, hmv]
+  · have h₁ : a ∈ m₁.attrs ↔ a ∈ m₁.attrs.filter (fun a => !managed tbl a.name) := by
+      simp [List.mem_filter, hm]
+    have h₂ : a ∈ m₂.attrs ↔ a ∈ m₂.attrs.filter (fun a => !managed tbl a.name) := by
+      simp [List.mem_filter, hm]
+    rw [h₁, h₂]
+    exact huser.mem_iff
+
+/-! ## what each handler does to the live model's action set -/
+
+
+theorem postSolutions_active (W : World) (s : State) (r : Request) :
+    (postSolutions Quirks.spec W s r).2.live.map (·.active) = s.live.map (·.active) := by
+  unfold postSolutions
+  simp only [Quirks.spec, Bool.false_eq_true, ↓reduceIte]
+  split
+  · rfl
+  · split
+    · rfl
+    · split
+      · rename_i c m hf hl
+        split
+        · simp [hl, derive_active]
+        · rfl
+      · rfl
+
+theorem postScenario_active_ok (W : World) (s : State) (r : Request)
+    (h : (postScenario Quirks.spec W s r).1.status = 200) :
+    ∃ name u, r.facts = .scen (.ok name u) ∧
+      (postScenario Quirks.spec W s r).2.live.map (·.active) = some (allInactive u) := by
+  unfold postScenario at h ⊢
+  split at h
+  · simp [err] at h
+  · rename_i hc
+    simp only [hc, ↓reduceIte]
+    split at h
+    · rename_i name u hf
+      refine ⟨name, u, hf, ?_⟩
+      simp [Quirks.spec, freshModel, derive_active]
+    · simp [Quirks.spec, err] at h
+    · simp [err] at h
+
+
+
+theorem foldl_derive_active (W : World) (tbl : Option SolTable) (sets : List ActiveSet) (m : Mdl) :
+    (sets.foldl (fun acc set => derive Quirks.spec W tbl { acc with active := set }) m).active =
+      sets.getLast?.getD m.active := by
+  induction sets generalizing m with
+  | nil => rfl
+  | cons x xs ih =>
+    simp only [List.foldl_cons]
+    rw [ih]
+    cases xs with
+    | nil => simp [derive_active]
+    | cons y ys => simp [List.getLast?_eq_some_getLast]
+
+def patchActive (m : Mdl) (entries : List PatchEntry) : ActiveSet :=
+  match decodeEntries m.u.acts.length entries with
+  | some sets => sets.getLast?.getD m.active
+  | none => m.active
+
+theorem patchModel_active_ok (W : World) (s : State) (r : Request)
+    (h : (patchModel Quirks.spec W s r).1.status = 200) :
+    ∃ m entries, s.live = some m ∧ r.facts = .patch (some entries) ∧
+      (patchModel Quirks.spec W s r).2.live.map (·.active) = some (patchActive m entries) := by
+  unfold patchModel at h ⊢
+  split at h
+  · rename_i sn m hsn hl
+    split at h
+    · simp [err] at h
+    · rename_i hc
+      split at h
+      · rename_i entries hf
+        refine ⟨m, entries, hl, hf, ?_⟩
+        simp only [Quirks.spec, Bool.false_eq_true, ↓reduceIte] at h
+        simp only [hc, Quirks.spec, Bool.false_eq_true, ↓reduceIte]
+        unfold patchActive
+        split at h
+        · simp [err] at h
+        · rename_i sets hd
+          simp only [hd]
+          split
+          · rename_i he
+            have : sets = [] := by simpa using he
+            subst this
+            simp [derive_active]
+          · simp only [Option.map_some]
+            have := foldl_derive_active W s.table sets
+              { m with attrs := join Quirks.spec m.attrs (List.map (fun (e : PatchEntry) => ({ name := e.name, val := e.val } : Attr)) entries) }
+            simp only [Quirks.spec] at this
+            rw [this]
+      · simp [err] at h
+  · simp [err] at h
+
+theorem putActive_active_ok (W : World) (s : State) (r : Request)
+    (h : (putActive Quirks.spec W s r).1.status = 200) :
+    ∃ m c types rows, s.live = some m ∧ r.facts = .csv c ∧ classifyTable c = .ok types rows ∧
+      (putActive Quirks.spec W s r).2.live.map (·.active) = some (applyTable m.u types rows m.active) := by
+  unfold putActive at h ⊢
+  split at h
+  · rename_i sn m hsn hl
+    split at h
+    · simp [err] at h
+    · rename_i hc
+      split at h
+      · rename_i c hf
+        split at h
+        · rename_i types rows hcl
+          exact ⟨m, c, types, rows, hl, hf, hcl, by simp [hc, derive_active]⟩
+        · simp [err] at h
+      · simp [err] at h
+  · simp [err] at h
+
+theorem putSub_active_ok (W : World) (s : State) (r : Request) (id : String)
+    (h : (putSub Quirks.spec W s r id).1.status = 200) :
+    ∃ m pu entries, s.live = some m ∧ atoi? id = some pu ∧ r.facts = .sub (some entries) ∧
+      subSyntaxOk entries = true ∧ subSupported m.u pu entries = true ∧
+      (putSub Quirks.spec W s r id).2.live.map (·.active) = some (applySub m.u pu entries m.active) := by
+  unfold putSub at h ⊢
+  split at h
+  · rename_i sn m hsn hl
+    split at h
+    · simp [err] at h
+    · rename_i pu ha
+      split at h
+      · simp [err] at h
+      · rename_i hpu
+        split at h
+        · rename_i entries hf
+          split at h
+          · simp [err] at h
+          · rename_i hsy
+            split at h
+            · simp [err] at h
+            · rename_i hsu
+              refine ⟨m, pu, entries, hl, ha, hf, by simpa using hsy, by simpa using hsu, ?_⟩
+              have hpu' : sn.u.pus.contains pu = true := by simpa using hpu
+              have hpu'' : pu ∈ sn.u.pus := by simpa using hpu'
+              simp [hpu'', hsy, hsu, Quirks.spec, derive_active]
+        · simp [err] at h
+  · simp [err] at h
+
+
 /-! ## which handlers touch the text resources -/
 
 theorem postSolutions_scenText (W : World) (s : State) (r : Request) :
@@ -630,8 +1069,8 @@ theorem patchModel_texts (W : World) (s : State) (r : Request) :
   repeat' split
   all_goals (first | exact ⟨rfl, rfl⟩ | (simp only []; exact ⟨rfl, rfl⟩))
 
-theorem putActive_texts (W : World) (s : State) (r : Request) :
-    (putActive W s r).2.scenText = s.scenText ∧ (putActive W s r).2.solText = s.solText := by
+theorem putActive_texts (q : Quirks) (W : World) (s : State) (r : Request) :
+    (putActive q W s r).2.scenText = s.scenText ∧ (putActive q W s r).2.solText = s.solText := by
   unfold putActive
   repeat' split
   all_goals (first | exact ⟨rfl, rfl⟩ | (simp only []; exact ⟨rfl, rfl⟩))
